@@ -790,6 +790,8 @@ def run(ctx):
         "Model.decode is exact on the image of Model.encode and its prefixes; other JSON texts are outside the model",
         "the host of Model/KeyStore.v (issues on acquire, latches on attest, reports its latch) is the mock's behaviour",
     ]
+    for name in kkdrv.pinned_consts():
+        ctx.assumptions.append("constant %s not located in the source: pinned default used, tied by the correspondence run only" % name)
     if consts_problem is not None:
         proofs_ok, detail = False, "constants translator: %s" % consts_problem
     verdict(ctx, proofs_ok, detail, disagreements, failures,
